@@ -527,15 +527,6 @@ func faultOps() []*faultOp {
 
 				return r.Result, nil
 			}, next: ncNextGet, nextWant: "own-reply"},
-		{name: "nc.subscribe.11", build: buildNetconf("1.1", true),
-			run: func(s *sess, _ []util.Option, _ time.Duration) (string, error) {
-				r, err := s.nc.EstablishPeriodicSubscription("/interfaces/interface/state", 1000)
-				if err != nil {
-					return "", err
-				}
-
-				return r.Result, nil
-			}, next: ncNextGet, nextWant: "own-reply"},
 		{name: "nc.unlock.10", build: buildNetconf("1.0", true),
 			run: func(s *sess, _ []util.Option, _ time.Duration) (string, error) {
 				r, err := s.nc.Unlock("candidate")
